@@ -215,9 +215,12 @@ func (s *FileStorage) Lock(ctx context.Context, name string) error {
 			f.Close()
 			if errors.Is(err2, io.EOF) {
 				emptyCount++
-				if emptyCount < 8 {
+				if emptyCount < 8 || lockfileRecentlyModified(filename) {
 					// wait for brief time and retry; could be that the file is in the process
-					// of being written or updated (which involves truncating) - see issue #232
+					// of being written or updated (which involves truncating) - see issue #232;
+					// as long as the file was created or truncated recently its writer may just
+					// be slow (a single write that takes longer than all the retries together
+					// would otherwise cost a live holder its lock)
 					select {
 					case <-time.After(250 * time.Millisecond):
 					case <-ctx.Done():
@@ -293,6 +296,15 @@ func (s *FileStorage) lockFilename(name string) string {
 
 func (s *FileStorage) lockDir() string {
 	return filepath.Join(s.Path, "locks")
+}
+
+// lockfileRecentlyModified reports whether the lock file at filename was
+// created, written or truncated within the period after which a lock that
+// is not kept fresh counts as stale. An empty lock file is treated as the
+// remains of a crashed process only once this is no longer the case.
+func lockfileRecentlyModified(filename string) bool {
+	fi, err := os.Stat(filename)
+	return err == nil && time.Since(fi.ModTime()) <= lockFreshnessInterval*2
 }
 
 func fileLockIsStale(meta lockMeta) bool {
